@@ -221,6 +221,30 @@ FIXED = [
 ]
 
 
+SWEEP_BASES = ['def e { salt: "s" splitters: u, v if t >= -1 and not ( u in ( 1 , "x" ) ) { return "A" weighted 1 , "B" weighted 2.5 } else if v != 3 { return 7 weighted 1 } else { return -1.5 weighted 1 } }',
+               'def two_t { return "tt" weighted 10 }']
+SWEEP_CHARS = [chr(c) for c in range(0, 128)] + ["\x85", "\xa0", "\xad", "\u200b", "\u2028", "\ufeff", "\xb7", "\u037e", "\uff1a", "\U0001f600"]
+
+
+def stray_char_sweep():
+    """every character of ASCII (and a few beyond) dropped between two tokens (spaced) and glued to the front / back of a
+    token, at every token boundary of two base texts: the reference decides which results are outside the grammar"""
+    for base in SWEEP_BASES:
+        toks = [t for _, t in refgrammar.lex(base)]
+        for c in SWEEP_CHARS:
+            for i in range(len(toks) + 1):
+                for how in ("spaced", "glue-front", "glue-back"):
+                    if how == "spaced":
+                        tt = toks[:i] + [c] + toks[i:]
+                    elif how == "glue-front" and i < len(toks):
+                        tt = toks[:i] + [c + toks[i]] + toks[i + 1:]
+                    elif how == "glue-back" and i < len(toks):
+                        tt = toks[:i] + [toks[i] + c] + toks[i + 1:]
+                    else:
+                        continue
+                    yield {"text": " ".join(tt), "kinds": ["stray-char:" + how], "level": "stray-char", "base": base if how == "spaced" and i % 7 == 0 else None}
+
+
 def selftest():
     refgrammar.selftest()
     for t in FIXED:
@@ -230,6 +254,9 @@ def selftest():
 def run(ctx, rec):
     if ctx.shard == 0:
         runner.direct_run(ctx, rec, "fixed-invalid-texts", [{"text": t, "kinds": ["fixed"], "level": "fixed"} for t in FIXED], judge)
+        if rec.violations:
+            return
+        runner.direct_run(ctx, rec, "stray-character-sweep", stray_char_sweep(), judge)
         if rec.violations:
             return
     runner.hyp_run(ctx, rec, "token-mutations", token_cases(), judge, ctx.n(1000, 8000))
